@@ -270,7 +270,40 @@ def faults_job(j):
             "samples": [meta[t] for t in list(meta)[2:3]], "violations": viol, "extra": {"faulty_requests": len(records)}}
 
 
+def refusals_job(j):
+    """refused introspection requests of different layouts, in every order of three, on one engine: each response is a trace
+    judged by TLC (Envelope: the error's location lies inside THIS request's text; the coercer is awaited once per error)"""
+    import itertools
+    import introworld
+    eng = introworld.cook(error_coercer=counting_coercer)
+    records, meta, tid = [], {}, 0
+    # (the multi-line layouts come first: whatever a defect remembers from the first refusal then lies outside the one-line texts)
+    for seq in itertools.permutations([1, 3, 0, 2, 4], 3):
+        for k in seq:
+            text, key, token = introworld.REFUSED[k]
+            tid += 1
+            STATE["n"] = 0
+            STATE["returned"] = []
+            try:
+                resp = main_loop().run(eng.execute(text))
+            except BaseException as e:
+                resp = {"__raised__": repr(e)}
+            records.append({"tid": tid, "nodes": [], "op": 0, "vars": [], "cls": "any", "geom": project.geometry(text),
+                            "resp": project.response(resp), "ncalls": 0, "coercerCalls": STATE["n"]})
+            meta[tid] = {"query": text, "response": repr(resp)[:1200], "earlier": [introworld.REFUSED[x][0] for x in seq]}
+    verdicts, tres = tracecheck.judge("Trace_resp.tla", "Trace_resp.cfg", records)
+    viol = []
+    for r in records:
+        ok, clause = verdicts[r["tid"]]
+        if not ok:
+            genrun.add_viol(viol, ({"kind": "trace-rejected", "clause": clause, "class": "refused-introspection"}, {"record": r, "meta": meta[r["tid"]]}))
+    return {"job": j, "tlc": [genrun.tlc_summary("Trace_resp.cfg(refusals)", tres)], "evaluations": len(records), "traces": len(records), "distinct": [],
+            "samples": [], "violations": viol, "extra": {"refused_introspection_traces": len(records)}}
+
+
 def job(j):
+    if j["kind"] == "refusals":
+        return refusals_job(j)
     if j["kind"] == "faults":
         return faults_job(j)
     return matrix_job(j) if j["kind"] == "matrix" else text_job(j)
@@ -287,6 +320,7 @@ def main(argv):
     jobs = [{"kind": "matrix"}] + [{"kind": "text", "seed": common.seed() * 100 + k + 1, "behaviours": 800 if thorough else 300,
                                     "max_cases": 400 if thorough else 120, "per_seed": 40 if thorough else 15} for k in range(n)]
     jobs += [{"kind": "faults", "seed": common.seed() * 100 + 91 + k, "behaviours": 1500 if thorough else 500, "max_cases": 1500 if thorough else 300} for k in range(4 if thorough else 2)]
+    jobs.append({"kind": "refusals"})
     jobs.append({"kind": "faults", "cfg": "MC_faults_gd.cfg", "exhaustive": True, "seed": 0, "behaviours": 0, "max_cases": 20000 if thorough else 4000})
     results = genrun.run_jobs("checks.c18", "job", jobs)
     bad = genrun.merge(rep, results)
